@@ -1,6 +1,7 @@
 package props
 
 import (
+	"reflect"
 	"bytes"
 	"encoding/json"
 	"fmt"
@@ -312,6 +313,12 @@ func c10Run(r *fw.Rec, c evalCase) {
 	switch o.Kind {
 	case "value":
 		n := obs.Normalize(o.Val, notes)
+		if rv := reflect.ValueOf(o.Val); rv.IsValid() && rv.Kind() == reflect.Ptr && rv.IsNil() {
+			// Eval itself turns the evaluator's null into a plain nil; a typed
+			// nil pointer at the top level is the internal representation leaking
+			r.Violation("foreign-value:typed-nil-pointer-as-result", fmt.Sprintf("Eval returned a typed nil pointer (%T) instead of nil for a null result", o.Val), nil)
+			bad = true
+		}
 		if ft, ok := obs.HasForeign(n); ok {
 			r.Violation("foreign-value:"+ft, "Eval returned nil error with a value outside the JSON-representable set: "+ft+" in "+obs.ShowNorm(n), nil)
 			bad = true
